@@ -354,3 +354,7 @@ mod test {
         assert_eq!(diff(&c, &d), vec![U32Field::zero(); n]);
     }
 }
+
+#[cfg(any(kani, aszepieniec_falcon_rust_verif))]
+#[path = "/verif/hooks/u32_field.rs"]
+pub(crate) mod verif_hook;
